@@ -46,6 +46,7 @@ def run(ctx, run):
     _controls_channel_set(ctx, run)
     _one_message_per_idle_pass(ctx, run, P.need("vbi_proxyd_handle_client_sockets", UNIT))
     _removed_client_reschedules(ctx, run, P.need("vbi_proxyd_handle_client_sockets", UNIT))
+    _force_free_spares_nobody(ctx, run, P.need("vbi_proxy_queue_force_free", UNIT))
     # 'nor stops serving': a mutex taken twice or kept at a return blocks the daemon for everybody (shared with C18)
     from . import C18
     C18.lock_discipline(ctx, run)
@@ -1016,3 +1017,41 @@ def _controls_channel_set(ctx, run):
                       "the token back as the active client and frees the token without its confirmation"
                       % (sorted(above), sorted(want), sorted(above - want) or sorted(want - above)), UNIT,
                       witness={"enum": vals})
+
+
+def _force_free_spares_nobody(ctx, run, f):
+    """When the pool of frame buffers is exhausted the daemon takes the oldest frame away from *every* client that still
+    has to read it; that is what keeps one stalled or hostile client from starving the others.  Inside the client loop of
+    vbi_proxy_queue_force_free() the release may therefore depend on nothing but 'this client's cursor stands on the head
+    frame'.  A further condition (socket state, pending write, client state) spares some client, which then pins the head
+    buffer for as long as it likes: no buffer is ever free again and all clients stop receiving data."""
+    run.touch(f)
+    L = loops.natural_loops(f)
+    n = 0
+    for bid, i in flow.all_events(f):
+        e = f.exprs[i]
+        if not (e["k"] == "call" and e.get("callee") == "vbi_proxy_queue_release_sliced"):
+            continue
+        head = loops.innermost(f, bid)
+        if head is None:
+            continue
+        body = L[head]
+        n += 1
+        extra = []
+        for a in atoms.atoms_at(f, i):
+            if a.src is None or a.src not in body or a.src == head:
+                continue
+            flds = set(a.L.fields) | (set(a.R.fields) if a.R is not None else set())
+            calls = set(a.L.calls) | (set(a.R.calls) if a.R is not None else set())
+            if not calls and flds and all(x.endswith(".p_sliced") for x in flds):
+                continue
+            extra.append(repr(a))
+        key = "RF-DOM:vbi_proxy_queue_force_free:spares-nobody"
+        if extra:
+            run.violation("RF-DOM", key, "inside the client loop `%s` also depends on %s: a client for which that does not hold keeps "
+                          "its reference to the head frame, the forced release frees nothing and - with the pool exhausted - no "
+                          "client receives data any more" % (ex.pretty(f, i)[:50], "; ".join(extra)[:120]), ex.loc(f, i),
+                          witness={"function": f.name, "extra_conditions": extra})
+        else:
+            run.holds("RF-DOM", key, "the forced release depends only on the client's cursor standing on the head frame", ex.loc(f, i))
+    run.floor("forced releases inside the client loop of vbi_proxy_queue_force_free", n, 1)
